@@ -462,6 +462,33 @@ pub fn check(case: &Case, idx: u64, acc: &mut Acc) {
                         }
                     }
                 }
+                // the same spline in other units of the abscissa (knots, sites and points multiplied by a power of
+                // two; 2^29 puts a unit spacing at the size of several years counted in seconds): derivative data and
+                // derivatives scale with the exact inverse power, everything else is unchanged
+                for e in [29i32, -20] {
+                    let f = 2.0_f64.powi(e);
+                    let (ts, taus): (Vec<f64>, Vec<f64>) = (t.iter().map(|v| v * f).collect(), tau.iter().map(|v| v * f).collect());
+                    let ys: Vec<f64> = (0..n).map(|j| if j == 0 || j == n - 1 { y[j] / f.powi(ln as i32) } else { y[j] }).collect();
+                    let mut ss = PPSpline::<f64>::new(k, ts, None);
+                    acc.eval();
+                    if ss.csolve(&taus, &ys, ln, ln, false).is_err() {
+                        acc.violate("long/rescaled/csolve/unexpected-error", idx, cj(), json!({"data": format!("(x/{})^{}", end, d), "scale": format!("2^{}", e)}), json!("Err"));
+                        return;
+                    }
+                    for x in pts.iter() {
+                        for mm in 0..k {
+                            acc.eval();
+                            let want = poly(d, mm, *x);
+                            match ss.ppdnev_single(&(x * f), mm) {
+                                Ok(got) if close_scaled(got * f.powi(mm as i32), want, 1e-7, 1.0) => {}
+                                other => {
+                                    acc.violate(&format!("long/rescaled/polynomial-reproduction/m{}", mm.min(3)), idx, cj(), json!({"degree": d, "x": x, "m": mm, "scale": format!("2^{}", e), "want": want}), json!(format!("{:?}", other.ok().map(|g| g * f.powi(mm as i32)))));
+                                    return;
+                                }
+                            }
+                        }
+                    }
+                }
             }
             let y: Vec<f64> = (0..n).map(|j| gen_rat(j).f() + 0.01 * j as f64).collect();
             let names: Vec<String> = (0..n).map(|j| format!("y{}", j)).collect();
